@@ -191,7 +191,8 @@ def numHexLen (int : Nat) (hint : Option Nat) : Nat :=
 def numHex (int : Nat) (hint : Option Nat) (neg : Bool) (size : Nat := 0) : Str :=
   let size := if size == 0 then (match hint with | some h => h | Option.none => 0) else size
   let size := if size == 0 then (let l := numHexLen int hint; if l % 2 == 1 then l + 1 else l) else size
-  fmtHex size (getNegative int neg)
+  if neg && size == 4 then fmtHex 4 (0x10000 - int)            -- four digits hold the 16-bit two's complement
+  else fmtHex size (getNegative int neg)
 
 /-- `hex(size=0)` of any value (`none` = AttributeError on Python None) -/
 def Value.hex? (v : Value) (size : Nat := 0) : Option Str :=
@@ -255,7 +256,9 @@ def create : Nat → Str → (isStr is16 defExt : Bool) → R Value
     | [] => .error .valueType                                   -- "a value cannot be empty" (after the repair)
     | c :: rest =>
       let strTry : Option Value :=
-        if isStr && value.getLast? == some c then some (.str ((value.drop 1).dropLast)) else Option.none
+        -- StringValue: same delimiter at both ends, every character one byte (wider ones raise ValueTypeError: the cascade goes on)
+        if isStr && value.getLast? == some c && ((value.drop 1).dropLast).all (fun ch => ch.toNat ≤ 255)
+        then some (.str ((value.drop 1).dropLast)) else Option.none
       match strTry with
       | some v => .ok v
       | Option.none =>
@@ -309,7 +312,7 @@ def Value.resolve (v : Value) (t : SymTab) : R Value :=
       if s.isAddress then (match s with | .address i _ => .ok (.address i .none) | _ => .error .other)
       else if s.isNumeric then
         match s with
-        | .numeric i _ _ _ => numericOfInt i Option.none .none    -- NumericValue(symbol.int)
+        | .numeric i _ _ ng => numericOfInt (if ng then -(i : Int) else i) Option.none .none    -- NumericValue(symbol.signed())
         | _ => .error .other
       else .error .other                                        -- ValueError: "does not have a value" (after the repair)
   | .expr l r op mode _ =>
@@ -321,13 +324,15 @@ def Value.resolve (v : Value) (t : SymTab) : R Value :=
     | .ok l', .ok r' =>
       let m := if l'.isExtendedLike || r'.isExtendedLike then Mode.extended else Mode.direct
       match l', r' with
-      | .numeric li _ _ _, .numeric ri _ _ _ =>
-        -- NumericValue("{}".format(left op right), mode=mode): the STRING constructor
+      | .numeric lm _ _ ln, .numeric rm _ _ rn =>
+        -- NumericValue("{}".format(left op right), mode=mode): the STRING constructor; operands are signed()
+        let li : Int := if ln then -(lm : Int) else lm
+        let ri : Int := if rn then -(rm : Int) else rm
         let res : Option Int :=
-          if op == '+' then some ((li : Int) + ri)
-          else if op == '-' then some ((li : Int) - ri)
-          else if op == '*' then some ((li : Int) * ri)
-          else if op == '/' then (if ri = 0 then Option.none else some ((li / ri : Nat) : Int))
+          if op == '+' then some (li + ri)
+          else if op == '-' then some (li - ri)
+          else if op == '*' then some (li * ri)
+          else if op == '/' then (if ri = 0 then Option.none else some (Int.tdiv li ri))      -- int(left / right)
           else some 0
         match res with
         | Option.none => .error .other                           -- ZeroDivisionError
